@@ -133,6 +133,8 @@ def run(ck):
                 kept.append((c, r, prior))
             except pg.Unsupported as u:
                 counts["not-in-model:" + str(u)[:40]] += 1
+    runs += unusual_context_oracle(ck, report)
+    runs += feedback_oracle(ck, report, rng, 12 if thorough else 4)
     bad, errs = tl.evaluate("C10", texts)
     for k, rc, out in errs:
         ck.corr_problem("correspondence shard %d did not evaluate (rc=%s)" % (k, rc), out)
@@ -162,8 +164,113 @@ def run(ck):
     ck.log("runs %d, compared in Coq %d (disagreements %d), findings %s" % (runs, len(texts), len(bad), sorted(reported)))
 
 
+def _outcome(fn):
+    try:
+        out = fn()
+        return ("returned", repr(getattr(out.data, "data", out.data))[:80], sorted(map(repr, out.context.to_dict()))[:20])
+    except BaseException as ex:  # noqa
+        if isinstance(ex, KeyboardInterrupt):
+            raise
+        return ("raised", type(ex).__name__)
+
+
+def unusual_context_oracle(ck, report):
+    """Direct oracle: context contents that are unusual but accepted (keys of unorderable types, very deep nesting, a value whose
+    repr raises).  Whatever the run does untraced -- return or raise -- it must do traced, at every detail level."""
+    import os, shutil, tempfile
+    from semantiva.context_processors import ContextType
+    from semantiva.pipeline import Payload, Pipeline
+    from semantiva.trace.drivers.jsonl import JsonlTraceDriver
+    from harness.lib import components as C
+    pg.setup_impl()
+    scen = {
+        "mixed-type-keys": ([{"processor": "FloatValueDataSource", "parameters": {"value": 2.0}}, {"processor": C.VerifMixedKeysContextProcessor},
+                             {"processor": "FloatMultiplyOperation", "parameters": {"factor": 3.0}}], {}),
+        "deep-tree-replaced": ([{"processor": "FloatValueDataSource", "parameters": {"value": 2.0}}, {"processor": C.VerifDeepTreeContextProcessor},
+                                {"processor": "FloatMultiplyOperation", "parameters": {"factor": 3.0}}], {"tree": C._nested(5000, 1)}),
+        "deep-tree-created": ([{"processor": "FloatValueDataSource", "parameters": {"value": 2.0}}, {"processor": C.VerifDeepTreeContextProcessor}], {}),
+        "repr-raises": ([{"processor": "FloatValueDataSource", "parameters": {"value": 2.0}}, {"processor": C.VerifUnhashableReprContextProcessor},
+                         {"processor": "FloatMultiplyOperation", "parameters": {"factor": 3.0}}], {}),
+    }
+    n = 0
+    for name, (cfg, ctx0) in scen.items():
+        plain = _outcome(lambda: Pipeline([dict(c) for c in cfg]).process(Payload(None, ContextType(dict(ctx0)))))
+        for detail in tl.DETAILS:
+            d = tempfile.mkdtemp(prefix="verif_c10_")
+            try:
+                drv = JsonlTraceDriver(os.path.join(d, "t.ser.jsonl"), detail=detail)
+                traced = _outcome(lambda: Pipeline([dict(c) for c in cfg], trace=drv).process(Payload(None, ContextType(dict(ctx0)))))
+            finally:
+                shutil.rmtree(d, ignore_errors=True)
+            n += 1
+            if traced != plain:
+                class _R:  # minimal stand-in for replay_obj
+                    pass
+                ck.fail_input("C10:traced-outcome-differs-from-untraced:unusual-context:%s" % name,
+                              "untraced: %s; traced (detail=%s): %s" % (plain[:2], detail, traced[:2]),
+                              {"kind": "unusual-context", "scenario": name, "detail": detail, "untraced": list(plain), "traced": list(traced)})
+                break
+    return n + len(scen)
+
+
+def feedback_oracle(ck, report, rng, n):
+    """Direct oracle: a program feeds the payload a traced run returned -- after changing its data IN PLACE -- back into the same
+    Pipeline object.  The trace of that run must equal the trace a fresh Pipeline (fresh driver) writes for an equal payload."""
+    import copy, os, shutil, tempfile
+    from semantiva.context_processors import ContextType
+    from semantiva.examples.test_utils import FloatDataType
+    from semantiva.pipeline import Payload, Pipeline
+    from semantiva.trace.drivers.jsonl import JsonlTraceDriver
+    pg.setup_impl()
+    done = 0
+    for t in range(n):
+        cfg = [{"processor": "FloatMultiplyOperation", "parameters": {"factor": float(rng.randint(2, 4))}},
+               {"processor": "FloatAddOperation", "parameters": {"addend": float(rng.randint(1, 3))}}]
+        if t % 2:
+            cfg.append({"processor": "FloatCollectValueProbe", "context_key": "seen"})
+        detail = tl.DETAILS[t % 4]
+        d = tempfile.mkdtemp(prefix="verif_c10fb_")
+        try:
+            def read(path):
+                return [json.loads(l) for l in open(path, encoding="utf-8").read().splitlines() if l.strip()]
+            p1 = os.path.join(d, "a.ser.jsonl")
+            drv = JsonlTraceDriver(p1, detail=detail)
+            pipe = Pipeline([dict(c) for c in cfg], trace=drv)
+            out = pipe.process(Payload(FloatDataType(3.0), ContextType({})))
+            k1 = len(read(p1))
+            new_value = float(rng.randint(5, 9))
+            out.data.data = new_value                       # in-place change of the returned data object
+            ctx_copy = copy.deepcopy(out.context.to_dict())
+            pipe.process(out)
+            second = read(p1)[k1:]
+            p2 = os.path.join(d, "b.ser.jsonl")
+            Pipeline([dict(c) for c in cfg], trace=JsonlTraceDriver(p2, detail=detail)).process(Payload(FloatDataType(new_value), ContextType(ctx_copy)))
+            fresh = read(p2)
+        except Exception as ex:  # noqa
+            ck.corr_problem("feedback oracle could not run", repr(ex))
+            continue
+        finally:
+            shutil.rmtree(d, ignore_errors=True)
+        done += 3
+        diff = tl.first_diff(tl.normalise(second), tl.normalise(fresh))
+        if diff is not None:
+            ck.fail_input("C10:trace-differs:payload-fed-back-after-in-place-change:%s" % tl.generic_path(diff),
+                          "second run of one Pipeline object on its own (modified) output vs a fresh Pipeline on an equal payload: normalised traces differ at %s" % diff,
+                          {"kind": "feedback", "config": cfg, "detail": detail, "new_value": new_value})
+    return done
+
+
 def replay(obj):
     r = obj["replay"]
+    if r.get("kind") in ("unusual-context", "feedback"):
+        class _Ck:
+            def fail_input(self, sig, what, rep): print("STILL FAILS:", sig, "-", what)
+            def corr_problem(self, a, b): print("problem:", a, b)
+        if r["kind"] == "unusual-context":
+            unusual_context_oracle(_Ck(), None)
+        else:
+            feedback_oracle(_Ck(), None, random.Random(1), 8)
+        return 0
     c = {"nodes": r["descriptors"], "data0": r["data0"], "ctx0": r["ctx0"]}
     po, pe, _ = tl.run_plain(c["nodes"], c["data0"], c["ctx0"])
     print("nodes:", json.dumps(r["nodes"]))
